@@ -144,6 +144,8 @@ func init() {
 			switch cs.K {
 			case "seq":
 				c19Seq(c, cs.Hist, cs.Op)
+			case "nested":
+				c19Nested(c, cs.Op, cs.Args)
 			case "sweep":
 				c19Sweep(c, cs.Op, cs.Args)
 			case "header":
@@ -179,6 +181,27 @@ func runC19(c *engine.Ctx) {
 	if c.Mine() {
 		for oi := range ops {
 			c19Seq(c, nil, oi)
+		}
+	}
+	// nested containers: every sequence (with repetitions) of sub-element builders up to depth 3
+	for kind := 0; kind < 4; kind++ {
+		n := c19NestedAlphabet(kind)
+		var nrec func(seq []int)
+		nrec = func(seq []int) {
+			if len(seq) > 0 {
+				c19Nested(c, kind, seq)
+			}
+			if len(seq) == 3 {
+				return
+			}
+			for i := 0; i < n; i++ {
+				nrec(append(append([]int(nil), seq...), i))
+			}
+		}
+		for i := 0; i < n; i++ {
+			if c.Mine() {
+				nrec([]int{i})
+			}
 		}
 	}
 	// argument sweeps
@@ -621,4 +644,93 @@ func c19Header(c *engine.Ctx, a []int) {
 		return
 	}
 	c.Distinct(engine.Hash64(b))
+}
+
+// ---- nested containers ---------------------------------------------------------
+
+var c19Transforms = []ref.Transform{{Type: 1, ID: 12}, {Type: 1, ID: 12, HasAttr: true, TV: true, AType: 14, AValue: 128}, {Type: 1, ID: 12, HasAttr: true, TV: true, AType: 14, AValue: 256},
+	{Type: 1, ID: 12, HasAttr: true, AType: 14, AVar: []byte{0, 128}}, {Type: 1, ID: 12, HasAttr: true, AType: 14, AVar: []byte{0, 192}}, {Type: 1, ID: 12, HasAttr: true, TV: true, AType: 15, AValue: 128}}
+var c19Selectors = []ref.Selector{{Type: 7, Proto: 6, SPort: 1, EPort: 2, SAddr: []byte{1, 2, 3, 4}, EAddr: []byte{1, 2, 3, 9}}, {Type: 7, Proto: 6, SPort: 1, EPort: 2, SAddr: []byte{1, 2, 3, 4}, EAddr: []byte{1, 2, 3, 10}},
+	{Type: 8, Proto: 6, SPort: 1, EPort: 2, SAddr: univ.Pat(16, 1), EAddr: univ.Pat(16, 2)}, {Type: 7, Proto: 17, SPort: 1, EPort: 2, SAddr: []byte{1, 2, 3, 4}, EAddr: []byte{1, 2, 3, 9}}}
+var c19CPAttrs = []ref.CPAttr{{Type: 1}, {Type: 1, Val: []byte{10, 0, 0, 1}}, {Type: 1, Val: []byte{10, 0, 0, 2}}, {Type: 2, Val: []byte{10, 0, 0, 1}}}
+var c19Proposals = []ref.Proposal{{Num: 1, Proto: 1}, {Num: 1, Proto: 1, SPI: []byte{1, 2, 3, 4}}, {Num: 1, Proto: 3, SPI: []byte{1, 2, 3, 5}}}
+
+func c19NestedAlphabet(kind int) int {
+	return []int{len(c19Transforms), len(c19Selectors), len(c19CPAttrs), len(c19Proposals)}[kind]
+}
+
+// c19Nested applies a sequence of sub-element builders to one nested container and compares with the list model.
+func c19Nested(c *engine.Ctx, kind int, seq []int) {
+	c.Evals++
+	c.Transitions += int64(len(seq))
+	cs := c19Case{K: "nested", Op: kind, Args: seq}
+	var cont message.IKEPayloadContainer
+	var want ref.Payload
+	name := ""
+	pi := engine.Catch(func() {
+		switch kind {
+		case 0:
+			name = "BuildTransform"
+			sa := cont.BuildSecurityAssociation()
+			p := sa.Proposals.BuildProposal(1, 1, nil)
+			wp := ref.Proposal{Num: 1, Proto: 1}
+			for _, i := range seq {
+				t := c19Transforms[i]
+				var at, av *uint16
+				var vv []byte
+				if t.HasAttr {
+					x := t.AType
+					at = &x
+					if t.TV {
+						y := t.AValue
+						av = &y
+					} else {
+						vv = t.AVar
+					}
+				}
+				p.EncryptionAlgorithm.BuildTransform(t.Type, t.ID, at, av, vv)
+				wp.Tr = append(wp.Tr, t)
+			}
+			want = ref.Payload{T: ref.PSA, SA: []ref.Proposal{wp}}
+		case 1:
+			name = "BuildIndividualTrafficSelector"
+			ts := cont.BuildTrafficSelectorInitiator()
+			want = ref.Payload{T: ref.PTSi}
+			for _, i := range seq {
+				s := c19Selectors[i]
+				ts.TrafficSelectors.BuildIndividualTrafficSelector(s.Type, s.Proto, s.SPort, s.EPort, s.SAddr, s.EAddr)
+				want.TS = append(want.TS, s)
+			}
+		case 2:
+			name = "BuildConfigurationAttribute"
+			cp := cont.BuildConfiguration(1)
+			want = ref.Payload{T: ref.PCP, B: 1}
+			for _, i := range seq {
+				a := c19CPAttrs[i]
+				cp.ConfigurationAttribute.BuildConfigurationAttribute(a.Type, a.Val)
+				want.CP = append(want.CP, a)
+			}
+		case 3:
+			name = "BuildProposal"
+			sa := cont.BuildSecurityAssociation()
+			want = ref.Payload{T: ref.PSA}
+			for _, i := range seq {
+				pr := c19Proposals[i]
+				p := sa.Proposals.BuildProposal(pr.Num, pr.Proto, pr.SPI)
+				p.ExtendedSequenceNumbers.BuildTransform(5, 0, nil, nil, nil)
+				pr.Tr = []ref.Transform{{Type: 5, ID: 0}}
+				want.SA = append(want.SA, pr)
+			}
+		}
+	})
+	if pi != nil {
+		c.Violate(pi.Sig(), fmt.Sprintf("%s sequence %v panics: %s", name, seq, pi.Value), cs)
+		return
+	}
+	got := univ.ProjectPayloads(cont)
+	if ref.CanonPayloads(got) != ref.CanonPayloads([]ref.Payload{want}) {
+		c.Violate("nested/"+name+"/"+ref.FirstDiff([]ref.Payload{want}, got), fmt.Sprintf("%s applied %d times (%v): container %s, arguments say %s", name, len(seq), seq, trs(ref.CanonPayloads(got)), trs(want.Canon())), cs)
+		return
+	}
+	c19Wire(c, cs, name, cont, []ref.Payload{want})
 }
